@@ -278,6 +278,15 @@ func c17Exec(c Case) (outs []string, fails []Failure, tags []string) {
 					if new(big.Int).SetUint64(got).Cmp(wm) < 0 {
 						fails = append(fails, Failure{Signature: "C17:gas-figure-below-wanted", What: fmt.Sprintf("stored gas figure %d < ⌊gasWanted·multiplier⌋ %s", got, wm), Case: c[i : i+1]})
 					}
+					// … and it is exactly the larger of the two: gas that was neither used nor charged for (the multiplier is what
+					// senders are charged at least) does not count towards the next base fee
+					want := new(big.Int).SetUint64(u)
+					if wm.Cmp(want) > 0 {
+						want = wm
+					}
+					if wm.IsUint64() && new(big.Int).SetUint64(got).Cmp(want) != 0 {
+						fails = append(fails, Failure{Signature: "C17:gas-figure", What: fmt.Sprintf("stored gas figure %d, max(gas used %d, ⌊gasWanted %d · multiplier %s/1e18⌋) = %s", got, u, w, f[3], want), Case: c[i : i+1]})
+					}
 				}
 			case "pv":
 				p := c17Params(f[1:8])
